@@ -410,8 +410,8 @@ class CodeGenEnvironment(Environment):
         )
         if additional_globals is not None:
             for global_name, global_value in additional_globals.items():
-                if global_name in self.RESERVED_GLOBAL_NAMESPACES or global_name in self.RESERVED_GLOBAL_NAMES:
-                    raise RuntimeError(f'Additional global "{global_name}" uses a reserved global name')
+                if global_name in (*self.RESERVED_GLOBAL_NAMESPACES, *self.RESERVED_GLOBAL_NAMES, *self.globals):
+                    raise RuntimeError(f'Additional global "{global_name}" uses a reserved or built-in global name')
                 self.globals[global_name] = global_value
 
         self._allow_replacements = allow_filter_test_or_use_query_overwrite
